@@ -306,15 +306,19 @@ theorem spec_macroDefinition (name : String) (hn : nameLike name = true) :
       | some s =>
         exfalso
         simp only [St.getMacro, St.globalOfType, Table.get] at hg
-        split at hg
-        · rename_i s' hl
-          split at hg
-          · rename_i hkind
-            have := hst.macros _ _ hl (by simpa using hkind)
+        by_cases hloc : (List.lookup st.cur.str st.locals).isSome = true
+        · simp [hloc] at hg
+        simp only [hloc] at hg
+        cases hl : List.lookup st.cur.str st.globals with
+        | none => rw [hl] at hg; cases hg
+        | some s' =>
+          rw [hl] at hg
+          by_cases hkind : (s'.kind == SymKind.macro) = true
+          · have := hst.macros _ _ hl (by simpa using hkind)
             rw [hs, hk] at this
             cases this
-          · cases hg
-        · cases hg
+          · simp only [hkind] at hg
+            cases hg
     simp [bind_run, getSt, hm, tokenError, triggerError]
     exact ⟨_, rfl⟩
 
